@@ -6,7 +6,7 @@ VERIF = os.path.dirname(os.path.dirname(os.path.abspath(__file__)))
 REPO = os.environ.get("VERIF_REPO", "/repo")
 SPEC = os.path.join(VERIF, "spec")
 HARNESS = os.path.join(VERIF, "harness")
-EVID = os.path.join(VERIF, "evidence")
+EVID = os.environ.get("VERIF_EVIDENCE_DIR") or os.path.join(VERIF, "evidence")   # seeded-change evaluation writes elsewhere
 REPLAYS = os.path.join(EVID, "replays")
 KNOWN = os.path.join(VERIF, "known_findings.json")
 NCPU = os.cpu_count() or 4
